@@ -34,6 +34,17 @@ theorem C08_weight_outside (prev close lower upper : Int) (h : lower < upper)
   rw [feeCase_eq_spec _ _ _ _ h]; unfold feeSpec inside overlap
   rw [if_neg (by omega), if_pos (by omega)]
 
+/-- the constants of the source the statements above are about: the alarm threshold `weight_decimal > 1` and the
+    half-open range convention `tick >= upper` = above -/
+theorem C08_source_constants : Gen.uniWeightAlarm = 1 ∧ Gen.uniUpperInclusiveAbove = true ∧
+    (∀ lower upper t : Int, inRange lower upper t = 1 ↔ t ≥ upper) := by
+  refine ⟨rfl, rfl, ?_⟩
+  intro lower upper t
+  unfold inRange
+  split
+  · simp_all
+  · split <;> simp_all
+
 /-- `RuntimeError("weight must <=1")` cannot be raised -/
 theorem C08_weight_error_unreachable (pool : Pool) (prev : Int) (row : Row) (p : Pos) (hlu : p.lower < p.upper) :
     updateFee NumCtx.exact pool (some prev) row p ≠ .error .runtime := by
@@ -48,7 +59,7 @@ theorem C08_weight_error_unreachable (pool : Pool) (prev : Int) (row : Row) (p :
     | part n d =>
       rw [hcase] at hb
       simp only [weightOf] at hb ⊢
-      have : ¬ (NumCtx.exact.div (n : Rat) (d : Rat) > 1) := by
+      have : ¬ (NumCtx.exact.div (n : Rat) (d : Rat) > Gen.uniWeightAlarm) := by
         rw [NumCtx.exact_div]; exact not_lt.mpr hb.2
       rw [if_neg this]; simp only [calcAmounts, if_pos hc]; split <;> simp
   · rw [updateFee_exact pool prev row p hlu hc]; simp
